@@ -27,11 +27,11 @@ def run(ctx):
     ctx.rule('C10.R5', 'staging file has a single owner', floor=1)
     ctx.rule('C10.R6', 'Get: announced len/hash and streamed bytes come from one handle (or a held region)', floor=1)
     hub = Hub(ctx, F, 'C10.R1')
-    r1(ctx, F, hub)
-    r2_r4(ctx, F, hub)
+    ctx.attempt(r1, ctx, F, hub)
+    ctx.attempt(r2_r4, ctx, F, hub)
     from rules import C03
-    C03.staging_ownership(ctx, F, hub, 'C10.R5')
-    r6(ctx, F, hub)
+    ctx.attempt(C03.staging_ownership, ctx, F, hub, 'C10.R5')
+    ctx.attempt(r6, ctx, F, hub)
 
 
 def r1(ctx, F, hub):
